@@ -96,6 +96,22 @@ def ev_msg(m, **pol):
     return Ev("bytes " + m.raw.hex(), "(SMsg %s)" % m.term, pol)
 
 
+def split_events(rng, evs, prob=0.15):
+    """cut some message frames into two writes at a random position (TCP may deliver any prefix first): the first write
+    is an incomplete frame and must change nothing, the second completes the message"""
+    out = []
+    for e in evs:
+        if e.stim.startswith("bytes ") and e.term and e.term.startswith("(SMsg") and rng.random() < prob:
+            raw = bytes.fromhex(e.stim.split()[1])
+            if len(raw) >= 2:
+                cut = rng.choice([1, len(raw) - 1, rng.randrange(1, len(raw)), max(1, len(raw) - 4), min(len(raw) - 1, 13)])
+                out.append(Ev("bytes " + raw[:cut].hex(), "SNop"))
+                out.append(Ev("bytes " + raw[cut:].hex(), e.term, e.pol))
+                continue
+        out.append(e)
+    return out
+
+
 def ev_start(**pol):
     return Ev("start", "SStart", pol)
 
@@ -354,4 +370,4 @@ def mixed_scenario(rng, n, plens, outgoing, steps, w_wait=0.15, w_broad=0.15, hs
     if rng.random() < 0.2:
         ev.append(ev_close())
         ev.append(ev_wait(1000))
-    return ev
+    return split_events(rng, ev, 0.08)
